@@ -176,6 +176,7 @@ type RunOpts struct {
 	Backstop  time.Duration     // wall-clock resource backstop; default 120 s
 	KeepFiles bool              // collect sandbox files afterwards
 	Env       []string
+	CPUSecs   int // RLIMIT_CPU of the script process (load-independent runaway guard); default 30
 }
 
 type capWriter struct {
@@ -221,7 +222,10 @@ func RunBash(script string, o RunOpts) RunResult {
 	ctx, cancel := context.WithTimeout(context.Background(), o.Backstop)
 	defer cancel()
 	// ulimit -t is a load-independent runaway guard; exec keeps it one process.
-	cmd := exec.CommandContext(ctx, "/bin/bash", "-c", `ulimit -t 30; exec /bin/bash "$0"`, sp)
+	if o.CPUSecs == 0 {
+		o.CPUSecs = 30
+	}
+	cmd := exec.CommandContext(ctx, "/bin/bash", "-c", fmt.Sprintf(`ulimit -t %d; exec /bin/bash "$0"`, o.CPUSecs), sp)
 	cmd.Dir = box
 	cmd.Env = append([]string{}, o.Env...)
 	cmd.SysProcAttr = &syscall.SysProcAttr{Setpgid: true}
